@@ -361,6 +361,8 @@ type readTap struct {
 	h    md5Hash
 	n    int64
 	pos  int64
+	buf  []byte
+	eof  bool
 }
 
 type md5Hash interface {
@@ -373,20 +375,47 @@ func (r *readTap) Read(p []byte) (int, error) {
 	if n > 0 {
 		r.h.Write(p[:n])
 		r.n += int64(n)
+		r.o.lock()
+		r.buf = append(r.buf, p[:n]...)
+		r.o.unlock()
+	}
+	if err == io.EOF {
+		r.o.lock()
+		r.eof = true // the source ends here (also when nothing at all could be read)
+		r.o.unlock()
 	}
 	return n, err
 }
 
 func (r *readTap) Seek(off int64, whence int) (int64, error) {
+	r.flush() // one handle serves several parts of a file: every segment counts
 	r.h = md5.New()
 	r.n = 0
+	r.o.lock()
 	r.pos = off
+	r.o.unlock()
 	return r.Readable.Seek(off, whence)
 }
 
-func (r *readTap) Close() error {
+func (r *readTap) flush() {
 	r.o.lock()
-	r.o.s.reads = append(r.o.s.reads, readObs{Name: r.name, Pos: r.pos, N: r.n, MD5: hex.EncodeToString(r.h.Sum(nil)), Step: r.o.s.step})
+	eof := r.eof
+	r.eof = false
+	r.o.unlock()
+	if r.n == 0 && !eof {
+		return
+	}
+	r.o.lock()
+	r.o.s.reads = append(r.o.s.reads, readObs{Name: r.name, Pos: r.pos, N: r.n, MD5: hex.EncodeToString(r.h.Sum(nil)), Step: r.o.s.step, Data: r.buf, EOF: eof})
+	r.buf = nil
+	r.o.unlock()
+}
+
+func (r *readTap) Close() error {
+	r.flush()
+	r.n = 0
+	r.o.lock()
+	delete(liveTaps, r)
 	r.o.unlock()
 	return r.Readable.Close()
 }
@@ -397,10 +426,58 @@ type readObs struct {
 	N    int64
 	MD5  string
 	Step int
+	Data []byte // the bytes read (several parts of one file may be read in one go)
+	EOF  bool   // the read ended at the end of the source
 }
 
 func (o *Obs) wrapReadable(n *SendNode, f sts.File, r sts.Readable) sts.Readable {
-	return &readTap{Readable: r, o: o, name: f.GetName(), h: md5.New()}
+	t := &readTap{Readable: r, o: o, name: f.GetName(), h: md5.New()}
+	o.lock()
+	liveTaps[t] = o.s
+	o.unlock()
+	return t
+}
+
+// liveTaps: read handles that are still open (the payload encoder keeps one
+// open while the parts it has read are already arriving at the receiver).
+var liveTaps = map[*readTap]*Sim{}
+
+// sourceEndedInside: did a read of the file that started at or before beg hit
+// the end of the source before end? (The file shrank after it was announced:
+// the encoder keeps the stream aligned by emitting the announced number of
+// bytes anyway, the tail being whatever its buffer held; the hash check then
+// rejects the file. Nothing the wire format can be held to.)
+func (s *Sim) sourceEndedInside(name string, beg, end int64) bool {
+	s.mu.Lock()
+	defer s.mu.Unlock()
+	for t, owner := range liveTaps {
+		if owner == s && t.name == name && t.eof && t.pos <= beg && t.pos+int64(len(t.buf)) < end {
+			return true
+		}
+	}
+	for _, rd := range s.reads {
+		if rd.Name == name && rd.Pos <= beg && rd.Pos+rd.N >= beg && rd.Pos+rd.N < end && rd.EOF {
+			return true
+		}
+	}
+	return false
+}
+
+// liveReadMatches: did a still-open handle of this simulation read exactly
+// these bytes at this position of the file?
+func (s *Sim) liveReadMatches(name string, beg, end int64, md5sum string) bool {
+	s.mu.Lock()
+	defer s.mu.Unlock()
+	for t, owner := range liveTaps {
+		if owner != s {
+			delete(liveTaps, t) // left over from an earlier simulation of this process
+			continue
+		}
+		if t.name == name && t.pos <= beg && end <= t.pos+int64(len(t.buf)) && bytesMD5(t.buf[beg-t.pos:end-t.pos]) == md5sum {
+			return true
+		}
+	}
+	return false
 }
 
 func (o *Obs) onRemove(n *SendNode, f sts.File) {
